@@ -147,7 +147,7 @@ def check(case):
 def _check(case, params, X, n, p, msl, mil, Xtrain, Xpred, history):
     with sut("CircularBinarySegmentation.fit/predict", allowed=(RuntimeError,)):
         spec_ = K.detector_spec("CircularBinarySegmentation", params)
-        det = K.reconfigured(spec_, Xtrain) if history == "reconfigured" else K.build(spec_)
+        det = K.build_with_history(spec_, Xtrain, history)
         if history == "scorer_prefit_wide" and not K.prefit_scorer_wide(det, Xtrain):
             history = None
         det.fit(Xtrain)
